@@ -77,13 +77,31 @@ Definition eval_n (cx : callctx) (m : mach) (n : nsym) : nat :=
   | NUnknownN => 999
   end.
 
+(* the argument's elements are read WHEN the micro-operation that copies them executes: if the member has released
+   the storage the argument points into by then, the read is a use-after-free (None) *)
+Definition read_arg (cx : callctx) (st : state) : option (list N) :=
+  match cx_argp cx, cx_argc cx with
+  | None, _ => Some (cx_argc cx)
+  | _, [] => Some []                (* an empty range is not read *)
+  | Some (b, off), _ =>
+      match nth_error (heap st) b with
+      | Some bu => if b_alive bu && (off + length (cx_argc cx) <=? length (b_cells bu))
+                   then Some (firstn (length (cx_argc cx)) (skipn off (b_cells bu))) else None
+      | None => None
+      end
+  end.
+
 Definition exec1 (cx : callctx) (o : mop) (m : mach) : mach :=
   let st := m_st m in
   match o with
   | MSetPtr p n => mk st (set_ptr (eval_p cx m p) (eval_n cx m n)) (m_vb m) (m_own m) (m_held m) (m_oarr m) (m_ovb m) (m_bad m)
   | MBufRange =>
-      let '(st1, vb') := vec_alloc st (cx_argc cx) in
-      mk (release_buf st1 (m_vb m)) (m_arr m) vb' (m_own m) (m_held m) (m_oarr m) (m_ovb m) (m_bad m)
+      match read_arg cx st with
+      | Some c =>
+          let '(st1, vb') := vec_alloc st c in
+          mk (release_buf st1 (m_vb m)) (m_arr m) vb' (m_own m) (m_held m) (m_oarr m) (m_ovb m) (m_bad m)
+      | None => bad m
+      end
   | MBufCopyOther =>
       let '(st1, vb') := vec_copy_assign st (m_vb m) (vec_cells st (m_ovb m)) in
       mk st1 (m_arr m) vb' (m_own m) (m_held m) (m_oarr m) (m_ovb m) (m_bad m)
@@ -121,8 +139,11 @@ Definition exec1 (cx : callctx) (o : mop) (m : mach) : mach :=
       else match cx_n cx with
            | O => m
            | _ => match m_own m with
-                  | Some b => if Nat.eqb (length (cx_argc cx)) (cx_n cx)
-                              then with_st m (with_heap st (hset (heap st) b (cx_argc cx))) else bad m
+                  | Some b => match read_arg cx st with
+                              | Some c => if Nat.eqb (length c) (cx_n cx)
+                                          then with_st m (with_heap st (hset (heap st) b c)) else bad m
+                              | None => bad m
+                              end
                   | None => bad m
                   end
            end
@@ -140,7 +161,7 @@ Definition exec1 (cx : callctx) (o : mop) (m : mach) : mach :=
       | SFixed f => mk (acquire_fobj st (Some f)) (m_arr m) (m_vb m) (m_own m) (Some f) (m_oarr m) (m_ovb m) (m_bad m)
       | _ => bad m
       end
-  | MOtherReset | MDelegate _ | MIfNotSelf _ => m      (* handled by exec *)
+  | MOtherReset | MSelfReset | MDelegate _ | MIfNotSelf _ => m      (* handled by exec *)
   | MUnknown => bad m
   end.
 
@@ -157,6 +178,7 @@ Fixpoint exec (fuel : nat) (ops : list mop) (m : mach) : mach :=
           let m1 :=
             match o with
             | MOtherReset => swap (exec fuel' (tbl OA_Reset) (swap m))
+            | MSelfReset => exec fuel' (tbl OA_Reset) m
             | MDelegate d => exec fuel' (tbl d) m
             | MIfNotSelf body => if Nat.eqb (cx_i cx) (cx_j cx) then m else exec fuel' body m
             | _ => exec1 cx o m
@@ -245,6 +267,11 @@ Definition cx_ptr st i p n :=
   | Some (q, c) => {| cx_i := i; cx_j := i; cx_argp := q; cx_argc := c; cx_n := n; cx_v := 0%N; cx_off := 0 |}
   | None => cx0 i i
   end.
+Definition cx_wrap st i j off n :=
+  match resolve_wrap st j off n with
+  | Some (q, c) => {| cx_i := i; cx_j := i; cx_argp := q; cx_argc := c; cx_n := n; cx_v := 0%N; cx_off := 0 |}
+  | None => cx0 i i
+  end.
 Definition cx_resize i n v := {| cx_i := i; cx_j := i; cx_argp := None; cx_argc := []; cx_n := n; cx_v := v; cx_off := 0 |}.
 Definition cx_fixn i n := {| cx_i := i; cx_j := i; cx_argp := None; cx_argc := []; cx_n := n; cx_v := 0%N; cx_off := 0 |}.
 Definition cx_fview i j off n := {| cx_i := i; cx_j := j; cx_argp := None; cx_argc := []; cx_n := n; cx_v := 0%N; cx_off := off |}.
@@ -267,6 +294,15 @@ Definition configs : list (state * member * callctx * op) :=
     (S, OA_AVec, cx_src S 0 1, AssignSrc 0 1); (S, OA_AVec, cx_src S 0 2, AssignSrc 0 2); (T, OA_AVec, cx_src T 0 0, AssignSrc 0 0);
     (S, OA_Reset, cx0 0 0, Reset 0); (S, OA_Reset, cx0 1 1, Reset 1); (T, OA_Reset, cx0 0 0, Reset 0);
     (S, OA_ResetPtr, cx_ptr S 0 (Some (1, 0)) 1, ResetPtr 0 (Some (1, 0)) 1); (S, OA_ResetPtr, cx_ptr S 0 None 0, ResetPtr 0 None 0);
+    (* self-aliasing sources: the array's own storage, whole / tail / middle / empty range, and another wrapper's *)
+    (S, OA_ResetPtr, cx_wrap S 0 0 0 3, ResetWrap 0 0 0 3); (S, OA_ResetPtr, cx_wrap S 0 0 1 2, ResetWrap 0 0 1 2);
+    (S, OA_ResetPtr, cx_wrap S 0 0 1 1, ResetWrap 0 0 1 1); (S, OA_ResetPtr, cx_wrap S 0 0 3 0, ResetWrap 0 0 3 0);
+    (S, OA_ResetPtr, cx_wrap S 1 1 0 1, ResetWrap 1 1 0 1); (S, OA_ResetPtr, cx_wrap S 0 2 1 2, ResetWrap 0 2 1 2);
+    (S, OA_ResetPtr, cx_wrap S 1 0 0 3, ResetWrap 1 0 0 3); (T, OA_ResetPtr, cx_wrap T 0 0 0 0, ResetWrap 0 0 0 0);
+    (S, AV_ResetPtr, cx_wrap S 3 3 1 2, ResetWrap 3 3 1 2); (S, AV_ResetPtr, cx_wrap S 3 0 0 3, ResetWrap 3 0 0 3);
+    (S, OA_CPtr, cx_wrap S 4 0 1 2, FromWrap 4 KOwned 0 1 2); (S, OA_CPtr, cx_wrap S 4 2 0 3, FromWrap 4 KOwned 2 0 3);
+    (S, AV_CPtr, cx_wrap S 4 0 0 3, FromWrap 4 KView 0 0 3); (S, AV_CPtr, cx_wrap S 4 2 1 1, FromWrap 4 KView 2 1 1);
+    (S, FA_CPtr, cx_wrap S 4 0 1 2, FromWrap 4 KFixed 0 1 2); (S, FA_CPtr, cx_wrap S 4 2 0 3, FromWrap 4 KFixed 2 0 3);
     (S, OA_Resize, cx_resize 0 5 9%N, Resize 0 5 9%N); (S, OA_Resize, cx_resize 1 2 9%N, Resize 1 2 9%N);
     (S, OA_Resize, cx_resize 0 1 9%N, Resize 0 1 9%N); (S, OA_Resize, cx_resize 0 0 9%N, Resize 0 0 9%N);
     (S, OA_Resize, cx_resize 0 3 9%N, Resize 0 3 9%N); (S, OA_Resize, cx_resize 1 3 9%N, Resize 1 3 9%N);
